@@ -11,8 +11,23 @@ def run(tier):
     beh = list(dict.fromkeys(r.behaviours))
     res = replay.replay(exe, beh, shards=16, timeout_s=30)
     c.add_replay(res, "every location x 16 depths x 2 property lists (3D, and 2D on the section) under ASan + UBSan")
+    # the worlds and query points of the other specifications, judged here only for totality, finiteness and sanitizer reports
+    borrowed = []
+    step = 6 if tier != "thorough" else 2
+    for mod, cfg, pick in (("Models.tla", "Models.cfg", 1), ("Envelope.tla", "Envelope.cfg", 2), ("Surface.tla", "Surface.cfg", 20 * step),
+                           ("Sections.tla", "Sections.cfg", 20 * step), ("Slab.tla", "Slab_quick.cfg", 10 * step), ("Culling.tla", "Culling.cfg", step),
+                           ("Motion.tla", "Motion.cfg", 10 * step), ("CrossSection.tla", "CrossSection.cfg", 3), ("Plume.tla", "Plume_cart_quick.cfg", 20 * step),
+                           ("Paint.tla", "Paint_quick.cfg", 20 * step), ("Rng.tla", "Rng_quick.cfg", 10 * step)):
+        rr = tlc.run(mod, cfg, workers=12, timeout=1800, heap="12g")
+        c.add_tlc(rr, "borrowed worlds of " + mod)
+        bb = list(dict.fromkeys(rr.behaviours))[c.seed % pick::pick]
+        borrowed += bb
+    bres = replay.replay(exe, borrowed, shards=16, timeout_s=300, extra=("--only-finite", "1"))
+    bres.n = len(borrowed)
+    c.add_replay(bres, "worlds and points of the other specifications under ASan + UBSan: only totality and finiteness are judged")
+    c.coverage["borrowed_behaviours"] = len(borrowed)
     c.sample(beh[0][:1500] + "...")
-    c.coverage["evaluations"] = res.stats.get("queries", 0)
+    c.coverage["evaluations"] = res.stats.get("queries", 0) + bres.stats.get("queries", 0)
     c.coverage["distinct_nontrivial"] = len(beh)
     c.coverage["exceptions_thrown_by_queries"] = res.stats.get("threw_query", 0)
     c.coverage["rule"] = ("3 world kinds (Cartesian with the surface at z = H, Cartesian with the surface at z = 0, spherical) of the kitchen-sink "
@@ -20,7 +35,10 @@ def run(tier):
                           "mass-conserving temperature; 36 degenerate surface positions (polygon vertices/edges, trench line/ends, slab tip, fault line, "
                           "plume axis/rim, ridge points, surface nodes, kink) x 16 depths (feature bounds, 0, negative, 1e7) x 2 property lists, plus 9 "
                           "sphere-only locations (poles, +-180 meridian, centre). Every returned value must be finite unless a std::exception is "
-                          "thrown; any sanitizer report, signal or time-out is a violation. non-trivial = distinct (world kind, location) pairs")
+                          "thrown; any sanitizer report, signal or time-out is a violation. In addition a sample of the worlds and query points of eleven other "
+                          "specifications (closed-form models, envelopes, depth surfaces, sections, slab geometry, culling grids, motions, cross sections, "
+                          "plumes, feature stacks, random models) is replayed under the sanitizers and judged only for finiteness. non-trivial = distinct "
+                          "(world kind, location) pairs plus borrowed behaviours")
     c.assumptions += ["undefined behaviour is what ASan and UBSan report; the model only directs where to look",
                       "distance_to_plane is not included: it reports infinity by design away from a slab"]
     return c.finish()
